@@ -626,7 +626,11 @@ Inductive op :=
 | OpAppend (h : nat) (len : nat)
 | OpSetLen (h : nat) (len : nat)
 | OpCopy (h g : nat)
-| OpMove (h g : nat).
+| OpMove (h g : nat)
+| OpUInsert (h : nat) (pos : nat)      (* unique_array<T>::insert(pos), T of kind A, pos in elements *)
+| OpUResize (h : nat) (n : nat)        (* unique_array<T>::resize(n) *)
+| OpNop.                              (* a self-checking scenario of the harness (item_array::compact on
+                                         library types): no effect on the handles *)
 
 (* run [f] on the buffer of handle h *)
 Definition on_buf (w : world) (h : nat) (f : nat -> buf -> res (world * out)) : res (world * out) :=
@@ -708,6 +712,51 @@ Definition do_setlen (e : env) (set : nat) (b : buf) (c : ctx) : res (buf * ctx 
 Definition on_local (w : world) (h : nat) (f : buf -> ctx -> res (buf * ctx * out)) : res (world * out) :=
   on_buf w h (fun id b => do '(b', c', o) <- f b (wctx w); Ok (hput w id (Some b') c', o)).
 
+(* ---- C++ unique_array<T> (mptcore/array.h), T an element type of kind A ---- *)
+
+(* unique_array<T>::reserve(n): an empty array holds the static immutable dummy whose detach is
+   buffer::create_unique (NoCopy); otherwise the vtable detach, and the array keeps its buffer when
+   that refuses (reserve still reports success) *)
+Definition uarray_reserve (e : env) (w : world) (h : nat) (n : nat) : res world :=
+  match handle w h with
+  | None =>
+    let '(w1, id) := alloc e w (n * esz e KA) false true (Some KA) in Ok (set_hnd w1 h (Some id))
+  | Some id =>
+    do '(w', r) <- detach e w id (n * esz e KA);
+    match r with
+    | Some nid => Ok (set_hnd w' h (Some nid))
+    | None => Ok w'
+    end
+  end.
+
+(* number of elements of the array of handle h (0 for the dummy) *)
+Definition uarray_length (e : env) (w : world) (h : nat) : nat :=
+  match handle w h with
+  | Some id => match hget w id with Some b => bused b / esz e KA | None => 0 end
+  | None => 0
+  end.
+
+(* the harness applies the unique_array operations only to arrays of kind A *)
+Definition uarray_applicable (w : world) (h : nat) : bool :=
+  match handle w h with
+  | Some id => match hget w id with Some b => okind_eqb (btr b) (Some KA) | None => false end
+  | None => true
+  end.
+
+(* unique_array<T>::insert(pos): reserve(max(len, pos) + 1), content<T>::insert(pos) (raw), construct *)
+Definition op_uinsert (e : env) (w : world) (h : nat) (pos : nat) : res (world * out) :=
+  if negb (uarray_applicable w h) then Ok (w, OSkip) else
+  let len := uarray_length e w h in
+  let len' := if len <? pos then pos else len in
+  do w1 <- uarray_reserve e w h (len' + 1);
+  on_local w1 h (do_insert e (pos * esz e KA) (esz e KA)).
+
+(* unique_array<T>::resize(n): reserve(n), content<T>::set_length(n) *)
+Definition op_uresize (e : env) (w : world) (h : nat) (n : nat) : res (world * out) :=
+  if negb (uarray_applicable w h) then Ok (w, OSkip) else
+  do w1 <- uarray_reserve e w h n;
+  on_local w1 h (do_setlen e (n * esz e KA)).
+
 Definition step_op (e : env) (w : world) (o : op) : res (world * out) :=
   match o with
   | OpNew h tr len imm ncp => op_new e w h tr len imm ncp
@@ -741,13 +790,17 @@ Definition step_op (e : env) (w : world) (o : op) : res (world * out) :=
         if id =? gid then Ok (w, OOk) else
         do '(b', gb', c', ok) <- cxx_move e b gb (wctx w);
         Ok (hput (hput w id (Some b') c') gid (Some gb') c', bool_out ok)))
+  | OpUInsert h pos => op_uinsert e w h pos
+  | OpUResize h n => op_uresize e w h n
+  | OpNop => Ok (w, OOk)
   end.
 
 Definition op_handles (o : op) : list nat :=
   match o with
   | OpNew h _ _ _ _ | OpReserve h _ _ | OpSet h _ _ _ _ | OpInsert h _ _ | OpCut h _ _ | OpDetach h _
-  | OpRelease h | OpTrim h _ | OpSkip h _ | OpAppend h _ | OpSetLen h _ => [h]
+  | OpRelease h | OpTrim h _ | OpSkip h _ | OpAppend h _ | OpSetLen h _ | OpUInsert h _ | OpUResize h _ => [h]
   | OpClone h g | OpCopy h g | OpMove h g => [h; g]
+  | OpNop => []
   end.
 
 (* operations naming a handle that does not exist are not applicable *)
